@@ -354,10 +354,16 @@ U(id="C12.lzip.member", props=["C12", "C04"], file="lzip/reader.rs", features=NO
   contract_stubs=["LZDecoder::new -> empty decoder; LZMADecoder::new -> zeroed object"],
   functions=[("src/lzip/reader.rs", "start_next_member"), ("src/lzip.rs", "parse", "LZIPHeader")],
   contract="valid member start => Ok(true), decoder set up, counters restarted, 11 bytes consumed; after a complete member: EOF or non-magic bytes => clean end (the loss the format defines); known finding D16: damaged-but-recognisable header and foreign first bytes are also reported as clean end")
-BITCHAN = ["bit channel: RangeEncoder::encode_bit/encode_direct_bits and RangeDecoder::decode_bit/decode_direct_bits replaced by a FIFO of (slot tag, bit) events; the decoder asserts it reads the slot the encoder wrote (the real bit-tree functions run on top)"]
+BITCHAN = ["bit channel: RangeEncoder::encode_bit/encode_direct_bits and RangeDecoder::decode_bit/decode_direct_bits replaced by a FIFO of (slot, bit) events, slot = byte offset inside the corresponding coder structure; the decoder asserts it reads the slot the encoder wrote (the real bit-tree functions run on top)"]
 U(id="C01.sym.len", props=["C01"], file="enc/encoder.rs", harnesses=["c01_sym_len_ps0", "c01_sym_len_ps15"], thorough_harnesses=["c01_sym_len_ps5"], contract_stubs=BITCHAN,
   functions=[("src/enc/encoder.rs", "encode", "LengthEncoder"), ("src/decoder.rs", "decode", "LengthCoder"), ("src/enc/range_enc.rs", "encode_bit_tree"), ("src/range_dec.rs", "decode_bit_tree")],
   contract="forall len in 2..=273 (pos_state 0, 15; 5 in thorough): decode(encode(len)) = len, same probability slots in the same order, channel drained")
+U(id="C01.sym.rep", props=["C01"], file="enc/encoder.rs", harnesses=["c01_sym_rep_ps0"], thorough_harnesses=["c01_sym_rep_ps9"], contract_stubs=BITCHAN,
+  functions=[("src/enc/encoder.rs", "encode_rep_match"), ("src/decoder.rs", "decode_rep_match")],
+  contract="forall rep<4, len (1 only with rep 0), state, rep history: decoder returns len; both sides end with the same rotated history (rep[0] = chosen distance) and state; same slots in the same order")
+U(id="C01.sym.match", props=["C01"], file="enc/encoder.rs", harnesses=["c01_sym_match_small", "c01_sym_match_mid"], thorough_harnesses=["c01_sym_match_large"], contract_stubs=BITCHAN,
+  functions=[("src/enc/encoder.rs", "encode_match"), ("src/decoder.rs", "decode_match"), ("src/enc/range_enc.rs", "encode_reverse_bit_tree"), ("src/range_dec.rs", "decode_reverse_bit_tree")],
+  contract="forall dist (classes <4, 4..127, >=128 incl. the end marker), len, state, history: decoder returns len and rep[0] = dist, history shifted, same state, same slots, channel drained")
 
 # ---------------------------------------------------------------------------------------- quick-tier budget
 # Harnesses kept in the quick tier per unit; every other harness of the unit runs in the thorough tier only.
